@@ -417,6 +417,11 @@ def _src_of(ctx, job):
 
 
 def c07(ctx):
+    yield from configured_matrices(ctx, "travel")
+    yield from c07_events(ctx)
+
+
+def c07_events(ctx):
     if ctx.instance is None:
         return
     inst = ctx.instance
@@ -560,9 +565,62 @@ def c08(ctx):
 
 
 # ---------------------------------------------------------------------------------------- C09
+def configured_matrices(ctx, which):
+    """the travel / setup matrices as written in the document, read independently of the compiler,
+    against the compiled tables (C07, C09: 'the right matrix entry' is the configured one)"""
+    from . import compmon
+    try:
+        doc = compmon.doc_of(ctx.scen)
+        ic = doc["instance_config"]
+    except Exception:  # noqa
+        return
+    inst = ctx.compiled_instance if getattr(ctx, "compiled_instance", None) is not None else ctx.instance
+    if inst is None:
+        return
+    if which == "setup" and isinstance(ic.get("setup_times"), list):
+        for e in ic["setup_times"]:
+            m = next((m for m in inst.machines if m.id == e.get("machine")), None)
+            if m is None or "specification" not in e:
+                continue
+            try:
+                cols, ent = compmon.read_matrix(e["specification"])
+            except Exception:  # noqa
+                continue
+            tb = e.get("time_behavior", "static")
+            for (a, b), v in ent.items():
+                t = m.setup_times.get((a, b))
+                if t is None or not compmon.time_matches(t, v, tb):
+                    yield F("setup-matrix-not-as-configured", f"{m.id}: ({a} -> {b}) = {v} in the document, compiled {t}", 0)
+                    return
+    if which == "travel":
+        lg = ic.get("logistics")
+        if isinstance(lg, dict) and "specification" in lg:
+            try:
+                cols, ent = compmon.read_matrix(lg["specification"])
+            except Exception:  # noqa
+                return
+            from jobshoplab.types.instance_config_types import BufferRoleConfig as _BR
+            inb = next((b for b in inst.buffers if b.role == _BR.INPUT), None)
+            outb = next((b for b in inst.buffers if b.role == _BR.OUTPUT), None)
+
+            def loc(n):
+                if n.lower() in compmon.IN_NAMES and inb is not None:
+                    return inb.id
+                if n.lower() in compmon.OUT_NAMES and outb is not None:
+                    return outb.id
+                return n
+            tb = lg.get("time_behavior", "static")
+            for (r, c), v in ent.items():
+                t = inst.logistics.travel_times.get((loc(r), loc(c)))
+                if t is not None and not compmon.time_matches(t, v, tb):
+                    yield F("travel-matrix-not-as-configured", f"({r} -> {c}) = {v} in the document, compiled {t}", 0)
+                    return
+
+
 def c09(ctx):
     if ctx.instance is None:
         return
+    yield from configured_matrices(ctx, "setup")
     if ctx.init_state is not None:
         for m in ctx.init_state.machines:
             if m.mounted_tool != "tl-0":
